@@ -24,7 +24,8 @@ Variable users : list string.
 Variable t0 : Z.          (* unix time of the first block of every history *)
 
 Definition init_state (init : list Z) : state :=
-  mkState t0 [] [] (map (fun p => (fst p, UKEX, snd p)) (combine users init)).
+  (* the harness funds every user with the same amount of ukex and of the token "foreign" *)
+  mkState t0 [] [] (map (fun p => (fst p, UKEX, snd p)) (combine users init) ++ map (fun p => (fst p, "foreign"%string, snd p)) (combine users init)).
 
 Definition dobs_eqb (a b : string * Z * Z) : bool :=
   (String.eqb (fst (fst a)) (fst (fst b)) && (snd (fst a) =? snd (fst b)) && (snd a =? snd b))%bool.
@@ -160,8 +161,13 @@ Definition olp (o : obs) (den : string) : lp_entry :=
   match find (fun e => String.eqb (lp_den e) den) (o_lp o) with Some e => e | None => (den, 0, 0, 0, []) end.
 (* pool-native: the recorded pool bonds of all dApps move exactly by the ukex that entered / left the module;
    lp-supply:  the LP supply moves exactly by what was minted into / burnt out of the holders' balances *)
-Definition flow_clauses (prev o : obs) : list string :=
-  cl "pool-native" (zsum (map snd (o_dapps o)) - zsum (map snd (o_dapps prev)) =? o_mod o - o_mod prev)
+(* lp-mint: LP tokens come into existence only when the end-of-block job launches a dApp ([mints] = the step is a
+   block); whoever redeems can then only redeem LP that a launch issued or a swap handed out of the module's stock.
+   [gift]: the step may pay a fee INTO the module (mint-issue of a fee-bearing token without owner) *)
+Definition flow_clauses (mints gift : bool) (prev o : obs) : list string :=
+  cl "pool-native" (if gift then zsum (map snd (o_dapps o)) - zsum (map snd (o_dapps prev)) <=? o_mod o - o_mod prev
+                    else zsum (map snd (o_dapps o)) - zsum (map snd (o_dapps prev)) =? o_mod o - o_mod prev)
+  ++ cl "lp-mint" (mints || forallb (fun e => negb (String.prefix "lp/" (lp_den e)) || (lp_sup e <=? lp_sup (olp prev (lp_den e)))) (o_lp o))
   ++ cl "lp-supply" (forallb (fun e => lp_sup e - lp_sup (olp prev (lp_den e)) =? lp_held e - lp_held (olp prev (lp_den e))) (o_lp o)).
 
 (* keeper-level swap / redeem / convert of user u on dApps n (and n2) *)
@@ -236,6 +242,19 @@ Definition other_clauses (prev ob : obs) (o : op) : list string :=
   (* a passed upsert proposal changes the description of a dApp, never bonds or balances; what it may do to
      TotalBond is judged by total-sum / held / pool-native *)
   | OUpsert _ _ _ _ _ _ _ _ _ => cl "frame" (same_money prev ob None)
+  (* minting a token never touches dApps or bonds; ukex only leaves the sender (the fee) *)
+  | OMintIssue u _ _ _ _ _ _ _ =>
+      match uidx u with None => ["user"%string] | Some i =>
+        cl "frame" (list_eqb dobs_eqb (o_dapps prev) (o_dapps ob)
+                    && list_eqb (fun x y => (String.eqb (fst (fst x)) (fst (fst y)) && String.eqb (snd (fst x)) (snd (fst y)) && (snd x =? snd y))%bool)
+                                (o_bonds prev) (o_bonds ob)
+                    && (o_mod prev <=? o_mod ob) && (obal ob i <=? obal prev i)) end
+  (* a transfer between accounts: dApps, bonds and the module untouched, ukex of the users conserved *)
+  | OBankSend _ _ _ _ =>
+      cl "frame" (list_eqb dobs_eqb (o_dapps prev) (o_dapps ob)
+                  && list_eqb (fun x y => (String.eqb (fst (fst x)) (fst (fst y)) && String.eqb (snd (fst x)) (snd (fst y)) && (snd x =? snd y))%bool)
+                              (o_bonds prev) (o_bonds ob)
+                  && (o_mod prev =? o_mod ob) && (zsum (o_bals prev) =? zsum (o_bals ob)))
   | _ => []
   end.
 
@@ -246,7 +265,7 @@ Fixpoint check_steps (c : config) (g : ghost) (steps : list (op * obs)) (n : Z) 
       let t := match o with OTick dt => if o_ok ob then g_now g + dt else g_now g | _ => g_now g end in
       let msg := is_msg_op o in
       let here :=
-        if negb msg then keeper_clauses c (g_prev g) ob o ++ state_clauses (g_mx g) ob ++ flow_clauses (g_prev g) ob else
+        if negb msg then keeper_clauses c (g_prev g) ob o ++ state_clauses (g_mx g) ob ++ flow_clauses false false (g_prev g) ob else
         (match o with
          | OCreate u _ _ n _ _ | OBond u n _ _ =>
              user_clauses g ob u n ++ (if o_ok ob then cl "max" (otot ob n <=? max_thr c) else [])
@@ -259,7 +278,8 @@ Fixpoint check_steps (c : config) (g : ghost) (steps : list (op * obs)) (n : Z) 
                | Some i => cl "nofree" (net_of g u + (obal ob i - obal (g_prev g) i) <=? 0)
                end
              else cl "reject" (same_state (g_prev g) ob)
-         | _ => other_clauses (g_prev g) ob o end) ++ state_clauses (g_mx g) ob ++ flow_clauses (g_prev g) ob in
+         | _ => other_clauses (g_prev g) ob o end) ++ state_clauses (g_mx g) ob
+          ++ flow_clauses (match o with OTick _ => true | _ => false end) (match o with OMintIssue _ _ _ _ _ _ _ _ => true | _ => false end) (g_prev g) ob in
       match here with
       | [] =>
           let ct := match o with OCreate _ _ _ nm _ _ => if o_ok ob then (nm, g_now g) :: g_ctime g else g_ctime g | _ => g_ctime g end in
